@@ -217,6 +217,27 @@ func checkCase(c micCase) evid.Outcome {
 				map[bool]string{true: "is unchanged, so it must be accepted", false: "changes, so it must be rejected"}[exp], up, c.V11, c.F.ACK, c.F.FCnt, d.F.FCnt, c.ConfFCnt, d.ConfFCnt)
 		}
 	}
+	// a frame that was decoded from the wire and then edited (FOpts removed) is a frame value like any other:
+	// its MIC is the specification MIC of the edited frame
+	if len(c.F.FOpts) > 0 && c.F.FPort != 0 {
+		var q lorawan.PHYPayload
+		if err := q.UnmarshalBinary(c.F.Encode()); err == nil {
+			m := q.MACPayload.(*lorawan.MACPayload)
+			m.FHDR.FCnt = c.F.FCnt
+			m.FHDR.FOpts = nil
+			d := c
+			d.F.FOpts = nil
+			var err error
+			if up {
+				err = q.SetUplinkDataMIC(ver(c.V11), c.ConfFCnt, c.TxDR, c.TxCh, gen.LibKey(toKey(c.FNwk)), gen.LibKey(toKey(c.SNwk)))
+			} else {
+				err = q.SetDownlinkDataMIC(ver(c.V11), c.ConfFCnt, gen.LibKey(toKey(c.SNwk)))
+			}
+			if exp := refMIC(&d); err != nil || [4]byte(q.MIC) != exp {
+				return evid.Fail("frame decoded from %x, FOpts then removed: Set*DataMIC gives %x (err %v), specification MIC of the edited frame (msg %x) is %x", c.F.Encode(), q.MIC[:], err, d.F.Msg(), exp[:])
+			}
+		}
+	}
 	// the validator of the opposite direction (one shared key, as with a 1.0 NwkSKey) must answer by the specification MIC
 	// for ITS direction: Dir is an authenticated input, it is not taken from the frame's MType
 	{
